@@ -30,6 +30,19 @@ def main():
                 shutil.rmtree(ctx.scratch, ignore_errors=True)
             if ctx.proof_broken:
                 failed.append((pid, ctx.proof_broken))
+    # the source-translated (T) layer shared by C01/C02/C06/C34 (lib/vf/marshal_validation.py)
+    try:
+        from . import marshal_validation
+        ctx = core.Ctx('Tmarshal', 'quick', 1)
+        try:
+            marshal_validation.gen(ctx)
+        finally:
+            import shutil
+            shutil.rmtree(ctx.scratch, ignore_errors=True)
+        if ctx.proof_broken:
+            failed.append(('T-marshal', ctx.proof_broken))
+    except ImportError:
+        pass
     with core.BuildLock():
         core.ensure_makefile()
         rc, out = core.sh(['timeout', '3000', 'make', '-C', core.COQ, '-j%d' % core.JOBS], timeout=3100)
